@@ -357,7 +357,12 @@ def rule_ext(run):
     intarith.run_extension_rule(run, "C09.ext")
 
 
-RULES = [rule_rows, rule_hops, rule_tokens, rule_exhaustive, rule_casts, rule_flags, rule_siblings, rule_widths, rule_intarith, rule_ext]
+def rule_castmatrix(run):
+    from . import c05
+    c05.rule_back(run)
+
+
+RULES = [rule_rows, rule_hops, rule_tokens, rule_exhaustive, rule_casts, rule_flags, rule_siblings, rule_widths, rule_intarith, rule_ext, rule_castmatrix]
 
 LEVEL = "other"
 EXPLANATION = (
